@@ -83,5 +83,7 @@ package gate
 //@ func onlyLiveLiteRoutesChanged
 //@   props C35
 //@   at-call configsEqual as rest
+//@   at-call configsEqual as restA: assert [left-copy-is-the-current-config-without-routes] arg0.NoAutoReload == current.NoAutoReload && arg0.HealthService.Enabled == current.HealthService.Enabled && streq(arg0.HealthService.Bind, current.HealthService.Bind) && arg0.API.Enabled == current.API.Enabled && arg0.Connect.Enabled == current.Connect.Enabled && streq(arg0.Connect.Name, current.Connect.Name) && streq(arg0.Config.Bind, current.Config.Bind) && len(arg0.Config.Lite.Routes) == 0
+//@   at-call configsEqual as restB: assert [right-copy-is-the-candidate-without-routes] arg1.NoAutoReload == candidate.NoAutoReload && arg1.HealthService.Enabled == candidate.HealthService.Enabled && streq(arg1.HealthService.Bind, candidate.HealthService.Bind) && arg1.API.Enabled == candidate.API.Enabled && arg1.Connect.Enabled == candidate.Connect.Enabled && streq(arg1.Connect.Name, candidate.Connect.Name) && streq(arg1.Config.Bind, candidate.Config.Bind) && len(arg1.Config.Lite.Routes) == 0
 //@   ensures [lite-on-both-sides] current == nil || candidate == nil ==> !result && !called(rest)
 //@   ensures [rest-must-be-equal] called(rest) ==> result == res(rest)
